@@ -96,7 +96,22 @@ REG.contract(L + "c01.scan_then_parse", params={"code": "list[char]"}, returns="
              requires=["len(code) >= 1"], raises={"ScanError": None, "IndexError": None, "ParseError": None},
              ensures=["result is not None", "strat(result)"])
 
-FUNCTIONS = [L + "c06.center_rows", L + "c06.scale_rows", L + "c06.categoric_rows", L + "c06.bspline_rows", L + "c01.scan_then_parse",
+# ---- C03 -------------------------------------------------------------------------------------------------------------
+from . import contrasts_c                                                                     # noqa: E402,F401
+from .contrasts_c import the, setminus, with_elem                                             # noqa: E402,F401
+from formulae.contrasts import ExpandedFactor                                                 # noqa: E402,F401
+_CAN = "(len(long.efactors) - len(short.efactors) == 1 and short.efactors <= long.efactors)"
+_EXTRA3 = "the(setminus(long.efactors, short.efactors))"
+REG.contract(L + "c03.merge_step", params={"long": "formulae.contrasts.Subterm", "short": "formulae.contrasts.Subterm"}, returns="efset",
+             tags=["C03"],
+             # the factor that would be absorbed is still reduced-coded (the caller's invariant; not proved for the loops of pick_contrast)
+             requires=[f"(not {_CAN}) or (not {_EXTRA3}.includes_intercept)"],
+             ensures=[f"implies({_CAN}, result == with_elem(short.efactors, ExpandedFactor(True, {_EXTRA3}.factor)))",
+                      f"implies(not {_CAN}, result == short.efactors)",
+                      "short.efactors <= result",
+                      "long.efactors == old(long.efactors)", "short.efactors == old(short.efactors)"])
+
+FUNCTIONS = [L + "c03.merge_step", L + "c06.center_rows", L + "c06.scale_rows", L + "c06.categoric_rows", L + "c06.bspline_rows", L + "c01.scan_then_parse",
              L + "c04.main_effect", L + "c04.main_effect#call", L + "c04.pair_interaction", L + "c17.block_view", L + "c17.block_view#group"]
 ASSUMPTIONS = ["property lemmas are verified on harness functions under /verif/vf/proplemmas that only call the real functions; each "
                "callee is represented by its contract (proved separately on the real source)",
